@@ -45,6 +45,7 @@ structure St where
   eng : Engine := {}
   engKeys : Array (Array UInt64) := #[defaultKeys]   -- key table per `Searcher::new()` draw of the engine
   specHist : List String := []
+  specPos : Option Spec.Pos := none     -- the position the RULES prescribe after the last eng.pos (none: start board or a move was not legal)
   vmemo : Std.HashMap String (Option Int) := {}        -- memo of Spec.V per (position, depth)                  -- spec-side game history of the last position command (position texts, no counters)
 
 def both (m s : String) : String := s!"M:{m}\tS:{s}"
@@ -511,9 +512,9 @@ def step (st : St) (line : String) : St × String :=
         match sp with
         | some p =>
           -- the repetition stack is not part of the position property: compare board only (counters from FEN kept by engine)
-          ({ st with eng := e', specHist := hist },
+          ({ st with eng := e', specHist := hist, specPos := some p },
            both m s!"running {posText p e'.board.halfmove e'.board.fullmove} rep={e'.search.rep.length}:{repx.toNat}")
-        | none => ({ st with eng := e', specHist := [] }, both m "?")
+        | none => ({ st with eng := e', specHist := [], specPos := none }, both m "?")
       | none => (st, modelOnly "bad-op")
     | none => (st, modelOnly "bad-op")
   | ["eng.go", d] =>
@@ -527,6 +528,13 @@ def step (st : St) (line : String) : St × String :=
       | (some (score, mv), s) => ({ st with eng := { st.eng with search := s } }, both s!"{score} {optMvText mv} nodes={s.nodes} rep={s.rep.length}" "?")
       | (none, s) => ({ st with eng := { st.eng with search := s } }, both "?" "?")
     | none => (st, modelOnly "bad-op")
+  | ["eng.judgelegal", mv] =>
+    -- C03 through the engine's own position command: the move the engine answered must be legal BY THE RULES in the position
+    -- the rules prescribe for the last position command (the engine's own board is not consulted)
+    match st.specPos, parseOptMv mv with
+    | some p, some (some m) => (st, both "ok" (if (Spec.legalMoves p).contains m then "ok" else "ILLEGAL-BESTMOVE"))
+    | some p, some none => (st, both "ok" (if (Spec.legalMoves p).isEmpty then "ok" else "NO-MOVE-BUT-LEGAL-MOVES-EXIST"))
+    | _, _ => (st, both "ok" "?")
   | ["eng.judge1", score] =>
     -- C09 at the level of the search: the value a depth-1 search from a fresh table must report for the current position is
     --   max over the legal moves m of (0 if the successor occurred at least twice in the game given with the last position
